@@ -3,7 +3,6 @@ From Coq Require Import ZArith List Bool Lia.
 From V Require Import C19.Model C19.Laws.
 Import ListNotations.
 Open Scope Z_scope.
-Set Default Timeout 30.
 
 (* ---------- int64 ---------- *)
 Definition in64 (x : Z) : Prop := - two63 <= x < two63.
@@ -487,5 +486,4 @@ Proof.
   - apply Z.leb_le. lia.
   - apply law_sample1_complete; try lia.
   - apply law_sample1_complete; try lia.
-    + intros H. rewrite (S6 H). reflexivity.
 Qed.
